@@ -82,10 +82,12 @@ pub fn decide_multi(what: &str, checks: &[Check], trials: u64, seed: u64, sample
                 Want::Mean { .. } => "differs from the exact value",
                 Want::Upper { .. } => "exceeds the bound",
             };
-            return Err(Fail::new(format!(
+            let mut f = Fail::new(format!(
                 "{}: {}: empirical value {:.6e} (T = {}), then {:.6e} on an independent seed (T = {}), {} {:.6e} by more than the rigorous tolerances {:.3e} / {:.3e}",
                 what, checks[i].name, t1.mean, trials, t2.mean, 4 * trials, rel, t1.target, t1.tol, t2.tol
-            )));
+            ));
+            f.stat = Some((i, t1.mean, t2.mean, t1.target));
+            return Err(f);
         }
     }
     Ok(first)
